@@ -111,6 +111,8 @@ func normKind(v string) string {
 		return "nil dereference"
 	case strings.HasPrefix(s, "makeslice"):
 		return s
+	case strings.HasPrefix(s, "invalid NewRequest arguments"):
+		return "invalid NewRequest arguments"
 	}
 	return s
 }
